@@ -150,6 +150,25 @@ func checkKernel(w *load.World, c *core.Collector, f *asmFunc, props []string) {
 	if !usesYLen {
 		c.Notef("ASM: %s consults only len(x); equal operand lengths are the callers' obligation (VALID)", f.name)
 	}
+	// every instruction is one the two analyses give a meaning to; in particular nothing touches the
+	// floating-point control state (LDMXCSR: flush-to-zero changes the products of denormal inputs)
+	known := map[string]bool{"MOVQ": true, "MOVL": true, "LEAQ": true, "ADDQ": true, "SUBQ": true, "INCQ": true, "DECQ": true, "NEGQ": true,
+		"SHRQ": true, "SHLQ": true, "ANDQ": true, "XORQ": true, "XORL": true, "CMPQ": true, "TESTQ": true, "JMP": true, "RET": true,
+		"VXORPS": true, "VMOVUPS": true, "VMOVAPS": true, "VMOVSS": true, "MOVSS": true, "VFMADD231PS": true, "VFMADD231SS": true,
+		"VSUBPS": true, "VSUBSS": true, "VMULPS": true, "VMULSS": true, "VADDPS": true, "VADDSS": true, "VHADDPS": true,
+		"VEXTRACTF128": true, "VZEROUPPER": true, "PCALIGN": true}
+	var strange []string
+	for i, in := range f.ins {
+		if known[in.op] || (len(in.op) >= 2 && in.op[0] == 'J') {
+			continue
+		}
+		strange = append(strange, fmt.Sprintf("%s: %s %s", at(i), in.op, strings.Join(in.args, ", ")))
+	}
+	if len(strange) > 0 {
+		c.Add("ASM", f.name+":vocabulary", core.Violation, rel, "instructions the kernel checks give no meaning to (control-register loads change how denormals and rounding behave; masked or gathered loads read what the traversal check does not see): "+strings.Join(strange, "; "), props...)
+	} else {
+		c.Add("ASM", f.name+":vocabulary", core.OK, rel, "", props...)
+	}
 	// Symbolic check of the traversal. Invariant at every block entry: both pointers have advanced
 	// by 4*c bytes and the count register holds n-c, for the same c. Per block: what is read through
 	// each pointer, relative to the entry, tiles [0,k) floats exactly once where k is what the block
